@@ -20,6 +20,7 @@ Times are integer timeline positions (divisions).  Kinds and fields:
   wedge     dir: '+'|'-' [staff]                              words text [staff]
   tempodir  text (ConstantTempoDirection)                     tempo bpm unit
   repeat, ending(number), fine, dacapo, segno, dalsegno, coda, tocoda
+  pedal     [line] [staff]  (sustain pedal direction; e may be None: no end)
   fermata   [ref: note id | None]                             barline style
 A *score spec* is {"parts": [part spec | {"group": {symbol,name,number}, "children": [...] }], "meta": {...}}.
 
@@ -98,6 +99,8 @@ def build_part(spec):
             obj = cls("crescendo" if o.get("dir", "+") == "+" else "diminuendo", wedge=True, staff=o.get("staff"))
         elif k == "words":
             obj = S.Words(o["text"], staff=o.get("staff"))
+        elif k == "pedal":
+            obj = S.SustainPedalDirection(line=bool(o.get("line", False)), staff=o.get("staff"))
         elif k == "tempodir":
             obj = S.ConstantTempoDirection(o["text"], staff=o.get("staff"))
         elif k == "tempo":
